@@ -248,6 +248,56 @@ Proof.
   intros W. apply wf_wfo in W. unfold get. rewrite (run_scale_one c A G B _ _ _ _ W).
   apply (nth_vscale K Rth).
 Qed.
+
+(* mul_scalar's step is linear in each of the two cores *)
+Lemma div_bound a p q : (a < p * q)%nat -> (a / q < p)%nat.
+Proof.
+  intros H. destruct q as [|q]; [lia|]. apply Nat.div_lt_upper_bound; lia.
+Qed.
+Lemma mod_bound a p q : (a < p * q)%nat -> (a mod q < q)%nat.
+Proof. intros H. destruct q as [|q]; [lia|]. apply Nat.mod_upper_bound. lia. Qed.
+Lemma vstep2_core_scale_l c v G1 G2 :
+  vstep2 K v (core_scale K c G1) G2 = vscale K c (vstep2 K v G1 G2).
+Proof.
+  apply (list_eq_nth 0).
+  - unfold vscale, vstep2. now rewrite map_length, !tab_length.
+  - unfold vstep2 at 1. rewrite tab_length. change (cr2 (core_scale K c G1)) with (cr2 G1).
+    change (cr1 (core_scale K c G1)) with (cr1 G1). change (cn (core_scale K c G1)) with (cn G1).
+    intros b Hb. rewrite (nth_vscale K Rth). unfold vstep2. rewrite !nth_tab by auto.
+    rewrite <- bsum_mul_l by auto. apply bsum_ext; intros a Ha.
+    transitivity (nth a v 0 * (c * bsum K (cn G1) (fun i => cget K (core_kron K G1 G2) a i b))); [|ring].
+    f_equal. rewrite <- bsum_mul_l by auto. apply bsum_ext; intros i Hi.
+    unfold core_kron. change (cr2 (core_scale K c G1)) with (cr2 G1).
+    change (cr1 (core_scale K c G1)) with (cr1 G1). change (cn (core_scale K c G1)) with (cn G1).
+    rewrite !cget_mk by auto. unfold core_scale.
+    rewrite cget_mk by (auto using div_bound). ring.
+Qed.
+Lemma vstep2_core_scale_r c v G1 G2 :
+  vstep2 K v G1 (core_scale K c G2) = vscale K c (vstep2 K v G1 G2).
+Proof.
+  apply (list_eq_nth 0).
+  - unfold vscale, vstep2. now rewrite map_length, !tab_length.
+  - unfold vstep2 at 1. rewrite tab_length. change (cr2 (core_scale K c G2)) with (cr2 G2).
+    change (cr1 (core_scale K c G2)) with (cr1 G2).
+    intros b Hb. rewrite (nth_vscale K Rth). unfold vstep2. rewrite !nth_tab by auto.
+    rewrite <- bsum_mul_l by auto. apply bsum_ext; intros a Ha.
+    transitivity (nth a v 0 * (c * bsum K (cn G1) (fun i => cget K (core_kron K G1 G2) a i b))); [|ring].
+    f_equal. rewrite <- bsum_mul_l by auto. apply bsum_ext; intros i Hi.
+    unfold core_kron. change (cr2 (core_scale K c G2)) with (cr2 G2).
+    change (cr1 (core_scale K c G2)) with (cr1 G2).
+    rewrite !cget_mk by auto. unfold core_scale.
+    destruct (Nat.lt_ge_cases i (cn G2)) as [Hi2|Hi2].
+    + rewrite cget_mk by (eauto using mod_bound). ring.
+    + (* mode sizes differ and i is outside G2: both sides read the default 0 *)
+      unfold cget at 2 4. unfold mkcore; cbn [dat].
+      rewrite (nth_overflow (nth (a mod cr1 G2) (tab (cr1 G2) _) [])).
+      2:{ rewrite nth_tab by (eauto using mod_bound). rewrite tab_length. exact Hi2. }
+      cbn [nth]. destruct (b mod cr2 G2)%nat; cbn [nth];
+      match goal with |- context [nth _ (nth i (nth ?x ?l []) []) 0] =>
+        assert (E : nth i (nth x l []) [] = []) by
+          (destruct (Nat.lt_ge_cases x (length l)) as [Hx|Hx];
+           [idtac|rewrite (nth_overflow l) by exact Hx; now destruct i]) end.
+Qed.
 Lemma wfo_scale_one c A G B : forall idx r rl, wfo r (A ++ G :: B) idx rl <-> wfo r (A ++ core_scale K c G :: B) idx rl.
 Proof.
   induction A as [|H A IH]; intros [|i idx] r rl; cbn [app wfo]; try tauto.
